@@ -466,6 +466,7 @@ int main(int argc, char **argv) {
       continue;
     }
     if (!strcmp(c, "line")) {
+      alarm(watchdog); /* per line: a hang costs one watchdog period, not the rest of the case */
       do_line(tok[1], tok[2], tok[3] ? atol(tok[3]) : 0);
       continue;
     }
